@@ -64,6 +64,8 @@ fn take_trace() -> String {
 // ---------------------------------------------------------------- configurations
 #[derive(Clone, Debug)]
 struct Cfg {
+    /// only a custom discount function is requested (no sum of distances, no harmonic sum)
+    disc_only: bool,
     /// the instance has already been run once (a bounded run) before the run that is reported:
     /// every run re-initialises the instance, so nothing may depend on it
     rerun: bool,
@@ -106,7 +108,9 @@ macro_rules! finish {
     ($builder:expr, $cfg:expr, $seed:expr, $ub:expr, $n:expr, $pool:expr, $wrap:expr) => {{
         let mut pl = ProgressLogger::default();
         let b = $builder.granularity($cfg.gran.clone());
-        let b = if $cfg.cent {
+        let b = if $cfg.cent && $cfg.disc_only {
+            b.discount_function(|d| 1.0 / ((d * d) as f64))
+        } else if $cfg.cent {
             b.sum_of_distances(true).sum_of_inverse_distances(true)
                 .discount_function(|d| 1.0 / ((d * d) as f64))
         } else { b };
@@ -362,6 +366,7 @@ fn random_cfg(rng: &mut Rng, n: usize, outside_threads: usize) -> Cfg {
     };
     let ext = rng.chance(2, 5);
     Cfg {
+        disc_only: rng.chance(1, 4),
         rerun: rng.chance(1, 4),
         threads,
         gran,
@@ -399,7 +404,7 @@ pub fn run(seed: u64, count: usize, maxn: usize, mode: &str, out: &mut impl Writ
             initial_registers(n, weights.as_deref(), hll8, log2m, hseed)
         } else { None };
         // the reference configuration first: one thread, no transpose, in memory
-        let mut cfgs = vec![Cfg { rerun: false, threads: 1, gran: Granularity::Nodes(16 * 1024), tr: false, ext: false, low: false, cent: true, bo: false }];
+        let mut cfgs = vec![Cfg { disc_only: false, rerun: false, threads: 1, gran: Granularity::Nodes(16 * 1024), tr: false, ext: false, low: false, cent: true, bo: false }];
         // then one that certainly has the transpose, and random ones
         let mut c = random_cfg(&mut rng, n, outside_threads); c.tr = true; cfgs.push(c);
         let mut c = random_cfg(&mut rng, n, outside_threads); c.tr = true; c.ext = true; c.low = false; cfgs.push(c);
